@@ -36,12 +36,17 @@ type propBudget struct {
 
 type budgetModel struct {
 	props map[common.Uint256]*propBudget
+	// multiTrack: some block on this chain carried two or more tracking
+	// transactions of one proposal (only a Byzantine block producer does that;
+	// the mempool keeps them apart)
+	multiTrack bool
 }
 
 func newBudgetModel() *budgetModel { return &budgetModel{props: map[common.Uint256]*propBudget{}} }
 
 func (m *budgetModel) clone() *budgetModel {
 	n := newBudgetModel()
+	n.multiTrack = m.multiTrack
 	for h, p := range m.props {
 		q := &propBudget{withdrawable: map[uint8]bool{}, paidStage: map[uint8]bool{}, paid: p.paid, status: p.status, known: p.known}
 		for k, v := range p.withdrawable {
@@ -93,8 +98,16 @@ func (r *run) budgetAfterBlock(b *types.Block, metas []txMeta, pre, post *obs) {
 	// payments made by withdraw transactions of this block, per proposal
 	paidNow := map[common.Uint256]common.Fixed64{}
 	nWithdraw := map[common.Uint256]int{}
+	nTrack := map[common.Uint256]int{}
 	for _, mt := range metas {
 		tx := mt.tx
+		if tp, ok := tx.Payload().(*payload.CRCProposalTracking); ok {
+			nTrack[tp.ProposalHash]++
+			if nTrack[tp.ProposalHash] > 1 {
+				m.multiTrack = true
+				c.Probe("several-trackings-of-one-proposal-in-one-block")
+			}
+		}
 		if !tx.IsCRCProposalWithdrawTx() {
 			continue
 		}
@@ -327,6 +340,19 @@ func (r *run) budgetCheckState(o *obs, when string) {
 	if com.IsInElectionPeriod() && committed > com.CRCCurrentStageAmount {
 		r.viol("C29", "funds", "C29/committed-budgets-exceed-term-funds",
 			"%s h=%d: unpaid budgets of live proposals sum to %s, funds of the term (CRCCurrentStageAmount) are %s", when, o.height, committed, com.CRCCurrentStageAmount)
+	}
+	// the committee's own account of what it has committed (the number the
+	// registration check subtracts from the term's funds) must not be below
+	// what is still owed: otherwise funds that are promised are offered again
+	c.Check()
+	if com.IsInElectionPeriod() && com.CRCCommitteeUsedAmount < committed {
+		sig := "C29/committee-account-below-unpaid-commitments"
+		if m.multiTrack {
+			sig += "/after-several-trackings-of-one-proposal-in-one-block"
+		}
+		r.viol("C29", "funds", sig,
+			"%s h=%d: CRCCommitteeUsedAmount=%s but unpaid budgets of live proposals (plus approved, uncollected stages of closed ones) sum to %s: %s of promised funds count as free",
+			when, o.height, com.CRCCommitteeUsedAmount, committed, committed-com.CRCCommitteeUsedAmount)
 	}
 	// real money: what is still owed to live proposals (plus claims recorded but
 	// not yet paid out) must be covered by the CR expenses address (plus an
